@@ -311,7 +311,7 @@ func runC18(tier string, seed uint64) int {
 	rp := newReport("C18", tier, seed)
 	n, nFault := 450, 150
 	if tier == "thorough" {
-		n, nFault = 30000, 8000
+		n, nFault = 90000, 24000
 	}
 	if v := envInt("VERIF_C18_N"); v > 0 {
 		n, nFault = v, v/3
